@@ -69,6 +69,7 @@ func c12FullFrame(i int, s c12Shape) *cemi.LDataInd {
 // mode: 0 group tunnel over UDP, 1 group tunnel over TCP, 2 group router (multicast)
 func c12FullStack(mode int) func() {
 	return func() {
+		defer logChoice()()
 		w := vnet.Reset()
 		var ep *vnet.Endpoint
 		w.OnCreate = func(e *vnet.Endpoint) {
